@@ -58,21 +58,21 @@ func brokerInit() {
 }
 
 type rawClient struct {
-	id       int
-	conn     net.Conn
-	stopped  chan struct{}
-	mu       sync.Mutex
-	cond     *sync.Cond
-	items    []string
-	pongs    int // PINGRESPs seen in total
-	pings    int // PINGREQs written in total (event packets and barriers)
+	id         int
+	conn       net.Conn
+	stopped    chan struct{}
+	mu         sync.Mutex
+	cond       *sync.Cond
+	items      []string
+	pongs      int // PINGRESPs seen in total
+	pings      int // PINGREQs written in total (event packets and barriers)
 	eventPings int // PINGREQ events since the last collect
-	eof      bool
-	bad      string
-	accepted bool
-	dead     bool // reported CLOSED already
-	paused   bool // the reader goroutine stops draining the connection (a client that has stopped reading)
-	pend     []byte // bytes of an incomplete packet written so far (`raw` events): the client is mid-packet
+	eof        bool
+	bad        string
+	accepted   bool
+	dead       bool   // reported CLOSED already
+	paused     bool   // the reader goroutine stops draining the connection (a client that has stopped reading)
+	pend       []byte // bytes of an incomplete packet written so far (`raw` events): the client is mid-packet
 }
 
 // mid: an incomplete packet is pending on the connection, so no PINGREQ barrier can be put on it;
@@ -177,12 +177,12 @@ type brokerCore struct {
 	rawConn     int  // connection of the current rawfirst/raw/close event (-1: none)
 	keepConnack bool // rawfirst: the CONNACK answering the first packet is kept in front of CLOSED
 	ring        int  // size of a connection's ring buffers
-	pipelined []byte
-	svr     *service.Server
-	clients map[int]*rawClient
-	cbs     map[int]*service.OnPublishFunc
-	cbmu    sync.Mutex
-	cblog   map[int][]string
+	pipelined   []byte
+	svr         *service.Server
+	clients     map[int]*rawClient
+	cbs         map[int]*service.OnPublishFunc
+	cbmu        sync.Mutex
+	cblog       map[int][]string
 }
 
 func init() {
@@ -704,7 +704,6 @@ func (b *brokerCore) handle(ws []string) string {
 	}
 	return "bad-op"
 }
-
 
 // clientPacketBytes encodes a client-to-server packet given in the op-line grammar of `pkt`.
 func clientPacketBytes(ws []string) []byte {
